@@ -40,6 +40,11 @@ def run(ctx):
 
     # ---------------------------------------------------------------- C09.1
     f = P.fn(STORE + 'compaction_auto_run_spawned_job_v1')
+    # a step of the job bracket extracted into a private store method (e.g. the job_ended append with its result
+    # JSON) is spliced back in
+    from ..inline import inline_calls, contains
+    _w9 = contains(rx_calls=r'ContinuityStore::append_job_ended$')
+    f = inline_calls(P, f, lambda body, callee: callee.startswith('ripd::continuities::') and not re.search(r'::append_job_ended$', callee) and _w9(body, callee), depth=1, note=ctx.note)
     ctx.touch(f)
     ended = f.calls(r'ContinuityStore::append_job_ended$')
     ctx.floor('C09.1', 'append_job_ended sites in the job runner', len(ended), 2)
